@@ -58,10 +58,29 @@ def default_canon(rr, k, caps):
         if rcap is not None and s[4] is not None:
             t += (min(s[7], rcap),)
         fr.append(t)
+    # Stamps enter ioflo's decisions only through comparisons with each other and with the current
+    # time (share.stamp > mark.stamp, ==, used != stamp), so they are canonicalised to their rank
+    # (0 = now, 1 = most recent earlier stamp, ...).
+    stamps = {now}
+    for p, (fields, stamp) in snap["shares"].items():
+        if stamp is not None:
+            stamps.add(stamp)
+    for p, marks in (snap.get("marks") or {}).items():
+        for (key, mstamp, used, data) in marks:
+            if mstamp is not None:
+                stamps.add(mstamp)
+            if used is not None:
+                stamps.add(used)
+    rank = {v: i for i, v in enumerate(sorted(stamps, reverse=True))}
     sh = []
     for p, (fields, stamp) in sorted(snap["shares"].items()):
-        sh.append((p, fields, None if stamp is None else round(now - stamp, 9)))
-    return (tuple(fr), tuple(sh))
+        sh.append((p, fields, None if stamp is None else rank[stamp]))
+    mk = []
+    for p, marks in sorted((snap.get("marks") or {}).items()):
+        for (key, mstamp, used, data) in marks:
+            mk.append((p, key, None if mstamp is None else rank[mstamp],
+                       None if used is None else rank[used], data))
+    return (tuple(fr), tuple(sh), tuple(mk))
 
 
 def explore(prog, alphabet, depth, on_run, watch=(), back_alphabet=None, canon=None, max_states=None):
